@@ -239,6 +239,10 @@ pub(crate) struct MultiState {
     /// Whether the members changed, or the screen was cleared, since the last painted frame, so
     /// that the lines on screen can not be attributed to the current members.
     frame_stale: bool,
+    /// The blank lines the last painted frame starts with (bottom alignment). Between two paints
+    /// they can not be told from the members' stored lines: a draw that the rate limiter skips
+    /// updates those without touching the screen.
+    blank_lines_painted: VisualLines,
 }
 
 impl MultiState {
@@ -252,6 +256,7 @@ impl MultiState {
             orphan_lines: Vec::new(),
             zombie_lines_count: VisualLines::default(),
             frame_stale: false,
+            blank_lines_painted: VisualLines::default(),
         }
     }
 
@@ -291,7 +296,8 @@ impl MultiState {
             .unwrap_or_default();
 
         // Make `DrawTarget` forget about the zombie lines so that they aren't cleared on next draw.
-        let blank_lines = width.map(|width| self.blank_lines_on_top(width)).unwrap_or_default();
+        // (The blank lines above the first bar are those of the frame on screen.)
+        let blank_lines = std::mem::take(&mut self.blank_lines_painted);
         let kept = self
             .draw_target
             .adjust_last_line_count(LineAdjust::Keep(line_count + blank_lines));
@@ -410,6 +416,7 @@ impl MultiState {
 
         // The screen now shows exactly the current members.
         self.frame_stale = false;
+        self.blank_lines_painted = self.blank_lines_on_top(width);
 
         drawable
     }
